@@ -142,13 +142,26 @@ async def history(root, rnd, encrypted, prop, n_ops, long_lived=False):
                     problems.append({'step': step, 'problem': 'payload uploaded for an object that already existed', 'n': len(dup)})
         elif op == 'delete':
             victims = rnd.sample(own, rnd.randint(1, len(own)))
-            others_before, _ = await loaded(root, user)
+
+            async def all_referenced():
+                out = set()
+                for u in users:
+                    _, l = await loaded(root, u)
+                    out |= set(l)
+                return out
+            orphans_before = set(Local(root / 'repo').list_files('data/')) - await all_referenced()
             r = await open_repo(root, user)
             with lib.quiet():
                 await r.delete_snapshots(victims, confirm=False)
             await r.close()
             for v in victims:
                 del model[v]
+            if prop == 'C08':
+                # when delete completes, every chunk referenced only by the deleted snapshots is gone
+                new_orphans = set(Local(root / 'repo').list_files('data/')) - await all_referenced() - orphans_before
+                if new_orphans:
+                    problems.append({'step': step, 'problem': 'delete left chunks that were referenced only by the deleted snapshots',
+                                     'n': len(new_orphans), 'deleted_in_one_call': len(victims)})
         else:
             r = await open_repo(root, user)
             with lib.quiet():
